@@ -9,7 +9,7 @@
     16 parsePower       17 parsePrimary (VariableParser / LparenParser / literals)
    plus the loops inside them as their own modes (`Loop n acc`, `ULoop`, `ALoop`, `PLoop`), so that
    there is a single fuel.  Tokens outside the modelled alphabet and constructs the model does not
-   follow (calls, indexing, `?->`, references, nullable types, a missing operand, a missing `)`)
+   follow (calls, indexing, `?->`, references, nullable types, a missing operand)
    answer `Unsup`.  No proofs in this file. *)
 From Coq Require Import List NArith Bool Arith.
 Import ListNotations.
@@ -177,7 +177,7 @@ Definition step (rec : mode -> list tok -> res) (m : mode) (ts : list tok) : res
     | TBin OAdd :: r => bind (rec (Lvl 13) r) (fun e r' => rec (PLoop (EBin OAdd acc e)) r')
     | TBin OSub :: r => bind (rec (Lvl 13) r) (fun e r' => rec (PLoop (EBin OSub acc e)) r')
     | TRp :: r => suffix acc r
-    | _ => Unsup     (* no ')': error unless the previous token is ')' — needs the token before; not modelled *)
+    | _ => Err       (* no ')': "缺少右括号" (the previous-token tolerance was removed by fix 36c211b) *)
     end
   end.
 
